@@ -49,7 +49,7 @@ def main():
     chk.notes["step_count_mismatches (fingerprint, not a verdict)"] = len(res["steps"])
     chk.notes["rule"] = ("every sequence of <= %d tokens over %d tokens (keywords, identifier shapes, numbers and near-numbers, complete / unterminated "
                          "/ badly escaped strings, punctuation, non-ASCII letter / number / symbol, invalid UTF-8, NUL) with and without separating "
-                         "blanks (<= 2 open parentheses), plus %d renderings of random trees (6 style profiles) and token-level mutations of them; "
+                         "blanks (<= 1 open parenthesis), plus %d renderings of random trees (6 style profiles) and token-level mutations of them; "
                          "non-trivial = inputs on which the real parser returned a tree" % (world["maxtok"], len(toks), len(uniq)))
     chk.notes["exhaustive"] = True
     chk.assumptions += ["spec/grammar_frozen.json is the reference language (bootstrapped from the pinned grammar.peg, reviewed by hand)",
